@@ -31,6 +31,8 @@ def strategy(tier):
         "prefix": st.one_of(st.none(), st.sampled_from(["pfx", "My.Proj", "p q"])),
         "outloc": st.sampled_from(["nested", "rel", "abs", "nested", "rel"]),
         "order": st.one_of(st.none(), st.lists(st.integers(0, 11), min_size=1, max_size=8)),
+        # the output directory was used before: it already holds (newer, different) files under the names this run writes
+        "prefill": st.sampled_from([False, False, True]),
     })
 
 
@@ -100,11 +102,19 @@ def evaluate(case):
             argv.append("-r")
         if case["prefix"] is not None:
             argv += ["-p", case["prefix"]]
+        want_files, pdirs, pfiles = T.expected_outputs(tree, case["recursive"], case["auto"])
+        if case.get("prefill") and case["outloc"] != "nested":
+            res.labels.append("output-prefilled-with-stale-pages")
+            for k, rel in enumerate(sorted(want_files)):
+                if k % 3 != 2:
+                    pth = os.path.join(out_abs, rel)
+                    os.makedirs(os.path.dirname(pth), exist_ok=True)
+                    with open(pth, "w") as fh:
+                        fh.write("STALE PAGE\n==========\n\nleft over from an earlier run\n" * 3)
         run = S.run_main(argv, cwd=cwd, order=case["order"])
         if run.exc is not None or run.code != 0:
             res.fail(exc_key(run.exc) if run.exc else f"exit-{run.code}", (repr(run.exc) + run.stderr)[-300:])
             return res
-        want_files, pdirs, pfiles = T.expected_outputs(tree, case["recursive"], case["auto"])
         got = S.snapshot(out_abs) if os.path.isdir(out_abs) else {}
         got_files = {p for p, v in got.items() if v[0] != "dir"}
         got_dirs = {p for p, v in got.items() if v[0] == "dir"}
@@ -121,6 +131,11 @@ def evaluate(case):
             res.fail(f"missing-{kind}", f"expected output file {p!r} was not written")
         for p in sorted(got_dirs - want_dirs):
             res.fail("extra-directory", f"unexpected output directory {p!r}")
+        for p in sorted(got_files & want_files):
+            if p.endswith("index.rst"):
+                with open(os.path.join(out_abs, p), encoding="utf-8") as fh:
+                    if "STALE PAGE" in fh.read():
+                        res.fail("stale-index-kept", f"{p!r} still holds the content of an earlier run")
         # content relation with single-file runs
         single = sb.path("single")
         for f in pfiles:
